@@ -11,8 +11,8 @@ enum UMode { U_POINTER, U_PATCH, U_GENERATE, U_MERGE };
 enum { K_RESOLVE = 0, K_CONSTRUCT = 1, K_PATCH = 2, K_GEN = 3, K_MERGE = 4, K_MGEN = 5 };
 
 struct XUtils : Engine {
-    UMode mode = U_POINTER; bool verbose = false;
-    std::vector<RV> D; std::vector<cJSON*> Dreal; std::string built;
+    UMode mode = U_POINTER; bool verbose = false; bool hooks_stage = false;
+    std::vector<RV> D; std::vector<cJSON*> Dreal, DrealCS; std::string built;
     const char* name() override { return "x_utils"; }
     std::vector<std::string> counter_names() override { return { "library_calls", "reference_success", "reference_failure", "open_cases", "patch_ops_generated", "append_probes", "nodes_round_tripped" }; }
     void init() { mode = cfg.prop == "C16" ? U_PATCH : cfg.prop == "C17" ? U_GENERATE : cfg.prop == "C18" ? U_MERGE : U_POINTER; }
@@ -25,11 +25,12 @@ struct XUtils : Engine {
         else if (which == "ptr4") { al.leaves = { RV::number(1) }; al.keys = { "a", "0", "", "/", "~1" }; n = 4; }
         else if (which == "docs") { al.leaves = { RV::number(1), RV::string("s") }; al.keys = { "a", "A", "a/b", "" }; }
         else if (which == "doc4") { al.leaves = { RV::mk(RV::Null), RV::number(1), RV::string("s") }; al.keys = { "a", "A", "a/b", "" }; al.max_arity = 2; n = 4; }
-        else { al.leaves = { RV::mk(RV::Null), RV::number(1), RV::number(1e-20), RV::number(3e-20), RV::string("s") }; al.keys = { "a", "A", "b", "a/b", "m~n", "" }; }
+        else { al.leaves = { RV::mk(RV::Null), RV::number(1), RV::number(1e-20), RV::number(3e-20), RV::string("s") }; al.keys = { "a", "A", "b", "a/b", "m~1", "" }; }
         d = enumerate_trees(al, n);
         if (which == "ptr" || which == "ptr4") {
             RV big = RV::mk(RV::Arr); for (int i = 0; i < 30; i++) big.arr.push_back(RV::number(i)); d.push_back(big);
             RV two = RV::mk(RV::Arr); two.arr = { RV::number(7), RV::string("x") }; d.push_back(two);
+            if (which == "ptr") for (int shape = 0; shape < 2; shape++) { RV v = RV::number(5); for (int i = 0; i < CJSON_NESTING_LIMIT; i++) { RV w = RV::mk((shape + i) % 2 ? RV::Obj : RV::Arr); if (w.k == RV::Obj) w.obj.emplace_back("k", v); else w.arr.push_back(v); v = w; } d.push_back(v); }
             RV nest = RV::mk(RV::Obj); RV inner = RV::mk(RV::Arr); for (int i = 0; i < 12; i++) { RV o = RV::mk(RV::Obj); o.obj.emplace_back("k~/", RV::number(i)); inner.arr.push_back(o); } nest.obj.emplace_back("a/b", inner); d.push_back(nest);
         }
         if (which == "doc" || which == "merge") {
@@ -51,18 +52,19 @@ struct XUtils : Engine {
     void build(const std::string& which) {
         if (built == which) return; built = which; D = docset(which); Dreal.clear();
         for (auto& v : D) Dreal.push_back(build_tree(v));
+        DrealCS.clear(); if (mode == U_POINTER) for (auto& v : D) DrealCS.push_back(build_tree_cs(v));
     }
     std::string docs_for(const std::string& stage) {
         if (mode == U_POINTER) return stage == "resolve4" || stage == "construct4" ? "ptr4" : "ptr";
         if (mode == U_MERGE) return stage.find("4") != std::string::npos ? "doc4" : "merge";
-        if (mode == U_PATCH) { if (stage == "single1" || stage == "single2full" || stage == "robust") return "doc"; if (stage == "single4") return "doc4"; return "docs"; }
+        if (mode == U_PATCH) { if (stage == "single1" || stage == "single1_hooks" || stage == "single2full" || stage == "robust") return "doc"; if (stage == "single4") return "doc4"; return "docs"; }
         return stage.find("4") != std::string::npos ? "doc4" : "doc";
     }
     std::vector<std::string> stages() override {
         init(); bool T = cfg.thorough(); std::vector<std::string> st;
         switch (mode) {
             case U_POINTER: { long k = cfg.optl("ptrlen", T ? 5 : 4); for (long i = 0; i <= k; i++) st.push_back("resolve_len" + std::to_string(i)); st.push_back("resolve_special"); st.push_back("construct"); if (T) { st.push_back("resolve4"); st.push_back("construct4"); } break; }
-            case U_PATCH: st = { "single1", "indices", "single2", "robust", "pairs" }; if (T) { st.push_back("single2full"); st.push_back("single3"); st.push_back("single4"); } break;
+            case U_PATCH: st = { "single1", "single1_hooks", "indices", "single2", "robust", "pairs" }; if (T) { st.push_back("single2full"); st.push_back("single3"); st.push_back("single4"); } break;
             case U_GENERATE: st = { "pairs" }; if (T) st.push_back("pairs4"); break;
             case U_MERGE: st = { "apply", "generate" }; if (T) { st.push_back("apply4"); st.push_back("generate4"); } break;
         }
@@ -75,7 +77,7 @@ struct XUtils : Engine {
         if (from) o.obj.emplace_back("from", RV::string(*from)); if (value) o.obj.emplace_back("value", *value); return o;
     }
     static std::vector<std::string> token_paths(int maxtok) {
-        static const char* toks[] = { "a", "A", "b", "a~1b", "m~0n", "", "0", "1", "2", "-" }; std::vector<std::string> out = { "" }, cur = { "" };
+        static const char* toks[] = { "a", "A", "b", "a~1b", "m~01", "", "0", "1", "2", "-" }; std::vector<std::string> out = { "" }, cur = { "" };
         for (int l = 1; l <= maxtok; l++) { std::vector<std::string> nx; for (auto& p : cur) for (auto t : toks) nx.push_back(p + "/" + t); out.insert(out.end(), nx.begin(), nx.end()); cur = nx; }
         return out;
     }
@@ -83,10 +85,10 @@ struct XUtils : Engine {
     // pointers that exist in the document or can be inserted into it
     static void doc_paths(const RV& v, const std::string& pre, std::vector<std::string>& exist, std::vector<std::string>& insertable) {
         exist.push_back(pre);
-        if (v.k == RV::Obj) { for (auto k : { "a", "A", "b", "a/b", "m~n", "" }) insertable.push_back(pre + "/" + ptr_encode_token(k)); for (auto& kv : v.obj) doc_paths(kv.second, pre + "/" + ptr_encode_token(kv.first), exist, insertable); }
+        if (v.k == RV::Obj) { for (auto k : { "a", "A", "b", "a/b", "m~1", "" }) insertable.push_back(pre + "/" + ptr_encode_token(k)); for (auto& kv : v.obj) doc_paths(kv.second, pre + "/" + ptr_encode_token(kv.first), exist, insertable); }
         if (v.k == RV::Arr) { for (size_t i = 0; i <= v.arr.size(); i++) insertable.push_back(pre + "/" + std::to_string(i)); insertable.push_back(pre + "/-"); for (size_t i = 0; i < v.arr.size(); i++) doc_paths(v.arr[i], pre + "/" + std::to_string(i), exist, insertable); }
     }
-    void run_patch(size_t doc, const RV& patch) { static Case c; c.kind = K_PATCH; c.iv[1] = (int64_t)doc; std::string s = rv_ser(patch); if (s.size() > sizeof c.data) return; c.set(s); ctr().extra[4]++; pool_run(c); }
+    void run_patch(size_t doc, const RV& patch) { static Case c; c.kind = K_PATCH; c.iv[1] = (int64_t)doc; c.iv[3] = hooks_stage; std::string s = rv_ser(patch); if (s.size() > sizeof c.data) return; c.set(s); ctr().extra[4]++; pool_run(c); }
     std::vector<RV> single_ops(const std::vector<std::string>& paths, const std::vector<std::string>& froms) {
         std::vector<RV> ops; auto vals = patch_values();
         for (auto& p : paths) { for (auto& v : vals) { ops.push_back(mkop("add", p, nullptr, &v)); ops.push_back(mkop("replace", p, nullptr, &v)); ops.push_back(mkop("test", p, nullptr, &v)); }
@@ -113,6 +115,7 @@ struct XUtils : Engine {
         }
         if (mode == U_PATCH) {
             if (stage.compare(0, 6, "single") == 0) {
+                hooks_stage = stage == "single1_hooks";
                 int L = atoi(stage.c_str() + 6); bool four = L == 4; if (four) L = 2; if (stage == "single2full") L = 2;
                 std::vector<std::string> paths = token_paths(L), froms = token_paths(L > 2 ? 2 : L);
                 std::vector<RV> ops = single_ops(paths, froms);
@@ -179,10 +182,14 @@ struct XUtils : Engine {
         init(); verbose = vb;
         if (built.empty()) { std::string st = cfg.opt.count("stage") ? cfg.opt["stage"] : ""; build(docs_for(st)); }
         long base = ledger_live(); L.errors = 0;
+        bool hk = c.kind == K_PATCH && c.iv[3] != 0;
+        if (hk) { install_hooks(HK_CUSTOM); ledger_reset_counters(); }
+        struct Restore { bool on; ~Restore() { if (on) install_hooks(HK_DEFAULT); } } restore{hk};
         switch (c.kind) {
             case K_RESOLVE: do_resolve(c); break; case K_CONSTRUCT: do_construct(c); break; case K_PATCH: do_patch(c); break;
             case K_GEN: do_generate(c); break; case K_MERGE: do_merge(c); break; case K_MGEN: do_mergegen(c); break;
         }
+        if (hk && (L.libc_from_lib || L.reallocs)) V("memory:hooks-bypassed", "C library allocator used directly while custom hooks are installed (" + std::to_string(L.libc_from_lib) + " calls, " + std::to_string(L.reallocs) + " reallocs) | " + describe(c));
         if (L.errors) { V("memory:allocator-misuse", std::string(L.first_error) + " | " + describe(c)); L.errors = 0; }
         if (ledger_live() != base) { V("memory:leak", "allocation balance after the case is " + std::to_string(ledger_live() - base) + " | " + describe(c)); }
     }
@@ -194,6 +201,11 @@ struct XUtils : Engine {
         std::vector<std::string> toks; std::vector<size_t> path; const cJSON* expect = nullptr;
         if (ptr_tokens(p, toks) && ptr_resolve(D[d], toks, path)) expect = node_at(Dreal[d], path);
         cJSON* got = LIB(cJSONUtils_GetPointerCaseSensitive(Dreal[d], p.c_str())); ctr().calls++; ctr().compared++;
+        if (d < DrealCS.size()) {   // the same document built with constant keys must resolve identically
+            cJSON* got2 = LIB(cJSONUtils_GetPointerCaseSensitive(DrealCS[d], p.c_str())); ctr().calls++;
+            const cJSON* expect2 = (ptr_tokens(p, toks) && ptr_resolve(D[d], toks, path)) ? node_at(DrealCS[d], path) : nullptr;
+            if (got2 != expect2) V("pointer:constant-key-tree-differs", "pointer \"" + printable(p) + "\" resolves differently on the same document built with cJSON_AddItemToObjectCS: " + rv_text(D[d]).substr(0, 200));
+        }
         if (expect) { ctr().extra[1]++; ctr().nontrivial++; } else ctr().extra[2]++;
         if (verbose) printf("  GetPointerCaseSensitive(%s, \"%s\") -> %s, reference: %s\n", rv_text(D[d]).substr(0, 100).c_str(), printable(p).c_str(), got ? wt(got).c_str() : "NULL", expect ? wt(expect).c_str() : "NULL");
         if (got != expect) V(expect ? (got ? "pointer:wrong-node" : "pointer:not-found") : "pointer:resolves-invalid", "pointer \"" + printable(p) + "\" on " + rv_text(D[d]).substr(0, 200) + " returned " + (got ? "node " + wt(got) : "NULL") + ", RFC 6901 designates " + (expect ? wt(expect) : "nothing"));
@@ -224,7 +236,9 @@ struct XUtils : Engine {
         if (c.iv[1] < 0) { std::string s = c.str(); size_t sep = s.find('\x1f'); if (sep == std::string::npos || !rv_deser(s.substr(0, sep), inline_doc) || !rv_deser(s.substr(sep + 1), patch)) return; docp = &inline_doc; }
         else { size_t di = (size_t)c.iv[1]; if (di >= D.size() || !rv_deser(c.str(), patch)) return; docp = &D[di]; }
         const RV& DOC = *docp;
-        cJSON* doc = build_tree(DOC); cJSON* pt = build_tree(patch);
+        bool csvar = ((c.iv[1] + (int64_t)c.len) & 1) != 0;   // every other case: document and patch built with constant keys (flag bits in type)
+        cJSON* doc = csvar ? build_tree_cs(DOC) : build_tree(DOC); cJSON* pt = csvar ? build_tree_cs(patch) : build_tree(patch);
+        if (cfg.opt.count("hooks_stage")) { }
         int status = LIB(cJSONUtils_ApplyPatchesCaseSensitive(doc, pt)); ctr().calls++;
         RV ref = DOC; PatchEval pe; PatchVerdict pv = pe.apply(ref, patch);
         std::string ctx = "document " + rv_text(DOC).substr(0, 150) + " patch " + rv_text(patch).substr(0, 300);
@@ -247,7 +261,7 @@ struct XUtils : Engine {
 
     void do_generate(const Case& c) {
         size_t i = (size_t)c.iv[1], j = (size_t)c.iv[2]; if (i >= D.size() || j >= D.size()) return;
-        cJSON* from = build_tree(D[i]); cJSON* to = build_tree(D[j]); std::string ctx = "from " + rv_text(D[i]).substr(0, 150) + " to " + rv_text(D[j]).substr(0, 150);
+        cJSON* from = ((i + j) % 3 == 1) ? build_tree_cs(D[i]) : build_tree(D[i]); cJSON* to = ((i + j) % 3 == 2) ? build_tree_cs(D[j]) : build_tree(D[j]); std::string ctx = "from " + rv_text(D[i]).substr(0, 150) + " to " + rv_text(D[j]).substr(0, 150);
         cJSON* patch = LIB(cJSONUtils_GeneratePatchesCaseSensitive(from, to)); ctr().calls++; ctr().compared++;
         bool equal = rv_equal_sets(D[i], D[j]); if (!equal) ctr().nontrivial++;
         if (!patch) { V("generate:null", "GeneratePatchesCaseSensitive returned NULL | " + ctx); LIBV(cJSON_Delete(from)); LIBV(cJSON_Delete(to)); return; }
@@ -276,7 +290,7 @@ struct XUtils : Engine {
 
     void do_merge(const Case& c) {
         size_t i = (size_t)c.iv[1], j = (size_t)c.iv[2]; if (i >= D.size() || j >= D.size()) return;
-        cJSON* target = build_tree(D[i]); cJSON* patch = build_tree(D[j]); std::string ctx = "target " + rv_text(D[i]).substr(0, 150) + " patch " + rv_text(D[j]).substr(0, 150);
+        cJSON* target = ((i + j) % 3 == 1) ? build_tree_cs(D[i]) : build_tree(D[i]); cJSON* patch = ((i + j) % 3 == 2) ? build_tree_cs(D[j]) : build_tree(D[j]); std::string ctx = "target " + rv_text(D[i]).substr(0, 150) + " patch " + rv_text(D[j]).substr(0, 150);
         RV ref = merge_apply(D[i], D[j]);
         cJSON* res = LIB(cJSONUtils_MergePatchCaseSensitive(target, patch)); ctr().calls++; ctr().compared++; if (D[j].k == RV::Obj) ctr().nontrivial++;
         if (!res) V("merge:null", "MergePatchCaseSensitive returned NULL | " + ctx);
@@ -287,7 +301,7 @@ struct XUtils : Engine {
     void do_mergegen(const Case& c) {
         size_t i = (size_t)c.iv[1], j = (size_t)c.iv[2]; if (i >= D.size() || j >= D.size()) return;
         if (has_null_member(D[j])) { ctr().extra[3]++; return; }
-        cJSON* from = build_tree(D[i]); cJSON* to = build_tree(D[j]); std::string ctx = "from " + rv_text(D[i]).substr(0, 150) + " to " + rv_text(D[j]).substr(0, 150);
+        cJSON* from = ((i + j) % 3 == 1) ? build_tree_cs(D[i]) : build_tree(D[i]); cJSON* to = ((i + j) % 3 == 2) ? build_tree_cs(D[j]) : build_tree(D[j]); std::string ctx = "from " + rv_text(D[i]).substr(0, 150) + " to " + rv_text(D[j]).substr(0, 150);
         cJSON* patch = LIB(cJSONUtils_GenerateMergePatchCaseSensitive(from, to)); ctr().calls++; ctr().compared++; ctr().nontrivial++;
         RV result = D[i];
         if (patch) { Walk wp = walk(patch); if (!wp.ok) V("mergegen:patch-malformed", wp.err + " | " + ctx); else { RV prv = rv_from_tree(patch); if (verbose) printf("  merge patch %s\n", rv_text(prv).c_str()); result = merge_apply(D[i], prv);
